@@ -9,7 +9,7 @@ Import ListNotations.
 (* h rewrites target declarations only *)
 Definition same_but_targets (h:shape -> shape) : Prop :=
   forall s, sid (h s) = sid s /\ spath (h s) = spath s /\ deact (h s) = deact s
-            /\ ssev (h s) = ssev s /\ scomps (h s) = scomps s.
+            /\ ssev (h s) = ssev s /\ scomps (h s) = scomps s /\ smsgs (h s) = smsgs s.
 
 Section Strip.
 Variable trig : trig_t.
@@ -24,13 +24,13 @@ Proof.
 Qed.
 
 Lemma prop_refs_h s : prop_refs (h s) = prop_refs s.
-Proof. unfold prop_refs. destruct (Hh s) as (_ & _ & _ & _ & ->). reflexivity. Qed.
+Proof. unfold prop_refs. destruct (Hh s) as (_ & _ & _ & _ & -> & _). reflexivity. Qed.
 Lemma qual_refs_h s : qual_refs (h s) = qual_refs s.
-Proof. unfold qual_refs. destruct (Hh s) as (_ & _ & _ & _ & ->). reflexivity. Qed.
+Proof. unfold qual_refs. destruct (Hh s) as (_ & _ & _ & _ & -> & _). reflexivity. Qed.
 Lemma is_property_shape_h s : is_property_shape (h s) = is_property_shape s.
 Proof. unfold is_property_shape. destruct (Hh s) as (_ & -> & _). reflexivity. Qed.
 Lemma mk_h s c f v d : mk (h s) c f v d = mk s c f v d.
-Proof. unfold mk, mkp, shape_rpath. destruct (Hh s) as (-> & -> & _ & -> & _). reflexivity. Qed.
+Proof. unfold mk, mkp, shape_rpath. destruct (Hh s) as (-> & -> & _ & -> & _ & ->). reflexivity. Qed.
 Lemma in_triggers_h pr s : in_triggers pr (h s) = in_triggers pr s.
 Proof. unfold in_triggers. destruct (Hh s) as (-> & _). reflexivity. Qed.
 
@@ -151,7 +151,7 @@ Proof.
                  = flat_map (fun ps => match spath ps with Some (PPred p) => [IRI p] | _ => [] end) pss).
     { apply flat_map_ext. intros ps. destruct (Hh ps) as (_ & -> & _). reflexivity. }
     rewrite Hw. apply flat_map_ext. intros fv. apply flat_map_ext. intros v. apply flat_map_ext. intros t.
-    destruct (_ || _ || _); [reflexivity|]. unfold mkp. destruct (Hh s) as (-> & _ & _ & -> & _). reflexivity.
+    destruct (_ || _ || _); [reflexivity|]. unfold mkp. destruct (Hh s) as (-> & _ & _ & -> & _ & ->). reflexivity.
 Qed.
 
 Lemma loop_h o top s ev cs nc nw acc : loop o top (h s) ev cs nc nw acc = loop o top s ev cs nc nw acc.
@@ -169,7 +169,7 @@ Theorem vshape_map o g E : forall fuel top ep s foci,
   vshape trig W fuel o g (map h E) top ep (h s) foci = vshape trig W fuel o g E top ep s foci.
 Proof.
   induction fuel as [|fuel IH]; intros top ep s foci; cbn [vshape];
-    destruct (Hh s) as (Hsid & Hpath & Hdeact & Hsev & Hcomps); rewrite Hdeact; [reflexivity|].
+    destruct (Hh s) as (Hsid & Hpath & Hdeact & Hsev & Hcomps & Hmsgs); rewrite Hdeact; [reflexivity|].
   destruct (deact s); [reflexivity|]. destruct (isnil foci); [reflexivity|]. destruct (_ && _); [reflexivity|].
   rewrite shape_value_nodes_h. apply bind_ext. intros fvs. rewrite loop_h, Hcomps, Hsid.
   apply loop_ext_in. intros c _. apply evalc_map. intros s' v. apply IH.
@@ -234,11 +234,11 @@ Qed.
 
 (* use_shapes = U is the run in which all other shapes have lost their target declarations *)
 Definition strip (s:shape) : shape :=
-  {| sid := sid s; spath := spath s; deact := deact s; ssev := ssev s; stargets := no_targets; scomps := scomps s |}.
+  {| sid := sid s; spath := spath s; deact := deact s; ssev := ssev s; smsgs := smsgs s; stargets := no_targets; scomps := scomps s |}.
 Definition keep_selected (U:list term) (s:shape) : shape := if tmem (sid s) U then s else strip s.
 
 Lemma keep_selected_same U : same_but_targets (keep_selected U).
-Proof. intros s. unfold keep_selected. destruct (tmem (sid s) U); simpl; auto. Qed.
+Proof. intros s. unfold keep_selected. destruct (tmem (sid s) U); simpl; repeat split; auto. Qed.
 
 Lemma validate_top_selected o sg g E U s :
   tmem (sid s) U = true ->
